@@ -33,7 +33,7 @@ from vtlengine.Model import Component, Role
 
 TIME_PERIOD_PATTERN = (
     r"^\d{4}$|"  # Year - 2024
-    r"^\d{4}[A]\d?$|"  # Annual - 2024A, 2024A1
+    r"^\d{4}A1?$|"  # Annual - 2024A, 2024A1
     r"^\d{4}[S][1-2]$|"  # Semester - 2024S1
     r"^\d{4}[Q][1-4]$|"  # Quarter - 2024Q1
     r"^\d{4}[M]\d{1,2}$|"  # Month - 2024M01, 2024M1
@@ -41,7 +41,7 @@ TIME_PERIOD_PATTERN = (
     r"^\d{4}[D]\d{1,3}$|"  # Day - 2024D001, 2024D01, 2024D1
     # SDMX Gregorian formats (hyphen-separated)
     r"^\d{4}-\d{1,2}$|"  # Month numeric - 2024-01, 2024-1
-    r"^\d{4}-A\d?$|"  # Annual - 2024-A1, 2024-A
+    r"^\d{4}-A1?$|"  # Annual - 2024-A1, 2024-A
     r"^\d{4}-S[1-2]$|"  # Semester - 2024-S1
     r"^\d{4}-Q[1-4]$|"  # Quarter - 2024-Q1
     r"^\d{4}-M\d{1,2}$|"  # Month - 2024-M01, 2024-M1
@@ -397,6 +397,50 @@ def validate_temporal_columns(
             column=col_name,
             type=type_name,
             error=f"Invalid format: '{invalid_value}'",
+        )
+
+
+def validate_time_period_ranges(
+    conn: duckdb.DuckDBPyConnection,
+    table_name: str,
+    components: Dict[str, Component],
+) -> None:
+    """
+    Validate that normalized Time_Period values exist in the calendar.
+
+    The format patterns only check the shape of a value (e.g. ``\\d{1,2}`` for weeks), so a
+    month 13, a week 54 (or a week 53 of a 52-week year) or a day 366 of a common year would
+    otherwise be stored as a period that does not exist. Runs after normalization, on the
+    canonical representation.
+    """
+    tp_columns = [n for n, c in components.items() if c.data_type == TimePeriod]
+    if not tp_columns:
+        return
+
+    case_expressions = []
+    for col_name in tp_columns:
+        case_expressions.append(f"""
+            CASE WHEN "{col_name}" IS NOT NULL AND "{col_name}" != ''
+                 AND NOT vtl_period_in_calendar("{col_name}")
+            THEN '{col_name}|' || "{col_name}"
+            ELSE NULL END
+        """)
+    coalesce_expr = ", ".join(case_expressions)
+    check_query = f"""
+        SELECT COALESCE({coalesce_expr}) as invalid
+        FROM "{table_name}"
+        WHERE COALESCE({coalesce_expr}) IS NOT NULL
+        LIMIT 1
+    """
+    result = conn.execute(check_query).fetchone()
+    if result and result[0]:
+        col_name, invalid_value = result[0].split("|", 1)
+        raise DataLoadError(
+            "0-3-1-6",
+            name=table_name,
+            column=col_name,
+            type="Time_Period",
+            error=f"Period does not exist in the calendar: '{invalid_value}'",
         )
 
 
